@@ -320,6 +320,12 @@ def run(prog, chk):
     if outcode.rule(prog, r16) < 2:
         raise Broken("no function with an error-code out-parameter and a negative failure return found")
 
+    r17 = chk.rule("R17-not-freed-after-transfer", "a block stored into a field of an object that stays alive is not freed afterwards by the "
+                   "same function (a clean-up added for the failure of a later step must not release what an entry of the caller's "
+                   "table already owns)", primary=False, floor=2)
+    if memrules.free_after_transfer(prog, r17) < 2:
+        raise Broken("fewer than 2 store-then-free sites found")
+
     r14 = chk.rule("R14-capacity-is-allocation-count", "after a refused (re-)allocation the capacity recorded is that of the block "
                    "actually held: every allocation that can be the last before a capacity store agrees with it (shared with C16 R10)",
                    primary=False, floor=4)
